@@ -65,4 +65,42 @@ def flowStatuses (supply : Nat) : List Flow → List Nat
   | .take _ st :: rest => st :: flowStatuses 0 rest
   | .st n :: rest => n :: flowStatuses 0 rest
 
+/-- The race-free regime of a two-stage flow pipeline `spew n | consumer` over a pipe of capacity `cap`: either
+    the consumer takes everything (`n ≤` what it reads), or what it does not take cannot even be buffered
+    (`n >` what it reads `+ cap`) — in between, whether the writer finishes before the reader goes away is a race
+    of the script.  (`drain` takes everything; `unbounded` is the Spec's finite stand-in for that.) -/
+def raceFree2 (cap n : Nat) : Flow → Bool
+  | .drain => decide (n ≤ unbounded)
+  | .take k _ => decide (n ≤ k) || decide (cap + k < n)
+  | .st _ => decide (n = 0) || decide (cap < n)
+  | _ => false
+
+/-- The race-free regime of `spew n | cat | consumer`: the consumer takes everything, or what it leaves exceeds
+    what the two pipes and the buffer of `cat` (`chunk` bytes) can hold together. -/
+def raceFree3 (cap chunk n : Nat) : Flow → Bool
+  | .drain => decide (n ≤ unbounded)
+  | .take k _ => decide (n ≤ k) || decide (cap + chunk + cap + k < n)
+  | .st _ => decide (n = 0) || decide (cap + chunk + cap < n)
+  | _ => false
+
+/-- what a descriptor of a pipeline stage refers to: the read / write end of the pipe between stage `j`
+    and stage `j+1`, or something that is not a pipe of this pipeline -/
+inductive FdKind where
+  | rd (j : Nat)
+  | wr (j : Nat)
+  | other
+  deriving DecidableEq, Repr
+
+/-- XCU 2.9.2: "The standard output of all but the last command shall be connected to the standard input
+    of the next command" — and nothing else: descriptor `fd` of stage `k` of an `n`-stage pipeline when
+    its command starts.  0 is the read end of the pipe from the left neighbour (if there is one), 1 the
+    write end of the pipe to the right neighbour (if there is one); every other descriptor is what it was
+    in the shell before the pipeline (`openBefore`: open, to something that is not one of these pipes) and
+    NO other descriptor refers to a pipe of the pipeline (else a reader never sees end of file, a writer
+    never gets EPIPE).  After the pipeline the shell's own table is `openBefore` again. -/
+def stageFd (openBefore : Nat → Bool) (n k fd : Nat) : Option FdKind :=
+  if fd = 0 ∧ 0 < k then some (.rd (k - 1))
+  else if fd = 1 ∧ k + 1 < n then some (.wr k)
+  else if openBefore fd then some .other else none
+
 end YashModel.Proc.Spec
